@@ -30,6 +30,22 @@ def targeted_histories(actions):
     return out
 
 
+def same_answer(a, b) -> bool:
+    """Identical outcome; numbers are compared up to rounding (1e-9 relative), because a late
+    Partial legitimately switches to its symbolic path once as_expression() was called on it
+    (C06 promises 'the same number up to rounding' for exactly that history) -- a stale memo
+    yields the value at another point, far outside this tolerance."""
+    if a == b:
+        return True
+    if a[0] == "value" and b[0] == "value":
+        try:
+            x, y = float(a[1]), float(b[1])
+        except ValueError:
+            return False
+        return abs(x - y) <= 1e-9 * max(abs(x), abs(y)) + 1e-12
+    return False
+
+
 def check(rep):
     model = load_model()
     actions = all_actions()
@@ -60,7 +76,7 @@ def check(rep):
             rep.unknown("C09.history", f"{f[0]}", "", (r.get("reason") or b.get("reason") or "")[:200])
             continue
         rep.count("operations_interpreted", len(h) + 1)
-        if r["result"] != b["result"]:
+        if not same_answer(r["result"], b["result"]):
             hk = " ; ".join(f"{a[0]}({a[1]}{', ' + a[2] if a[2] else ''}{', ' + a[3] if a[3] else ''})" for a in h)
             fk = f"{f[0]}({f[1]}{', ' + f[2] if f[2] else ''}{', ' + f[3] if f[3] else ''})"
             rep.violation("C09.history", f"{f[0]} after {h[-1][0]}", "",
@@ -92,8 +108,8 @@ def check(rep):
         explanation="(1) Histories of API operations (evaluation, late/early partials on kept objects, located and early "
                     "differentials, as_expression switching a late object to its symbolic path, normalisation, calls that "
                     "fail with DomainError or CoordinateMissing) are interpreted abstractly over a pool of expressions "
-                    "that share sub-expression objects at concrete points; the final operation must give bit-for-bit the "
-                    "answer it gives on a fresh pool. (2) CFG rules: every root traversal call is dominated by a cache "
+                    "that share sub-expression objects at concrete points; the final operation must give the "
+                    "answer it gives on a fresh pool (numbers up to rounding: a late object may switch route). (2) CFG rules: every root traversal call is dominated by a cache "
                     "reset on the same receiver; every reset clears every memo written by _evaluate and recurses into "
                     "every child on all paths; no module keeps mutable state.",
         technique="static abstract interpretation of operation histories + CFG dominance / must-pass-through rules",
